@@ -15,7 +15,7 @@ import corpus
 import vlib
 
 TMPL = {
-    "x": '<wxs module="m">exports.k = 1;</wxs><import src="./b"/><template name="t{name}"><v a="{{{{alpha}}}}"/></template>'
+    "x": '<wxs module="m">exports.k = 1;</wxs><wxs module="lib" src="/lib/u"/><import src="./b"/><template name="t{name}"><v a="{{{{alpha}}}}"/></template>'
          '<v p="{{{{alpha}}}}" q="{{{{beta}}}}" class="c {{{{gamma}}}}" bind:tap="{{{{delta}}}}">{{{{epsilon}}}} {{{{zeta + eta}}}}</v>'
          '<block wx:for="{{{{list}}}}" wx:key="k"><w data:i="{{{{index}}}}" mark:m="{{{{item.v}}}}">{{{{theta}}}}</w></block>'
          '<include src="/q/c"/><template is="t{name}" data="{{{{alpha, beta}}}}"/>',
@@ -43,6 +43,9 @@ def ops_of(hist):
                 ops.append(["add_script", "p/s_" + h[1], SCRIPT[h[2]]])
             else:
                 ops.append(["remove_script", "p/s_" + h[1]])
+        elif h[0] == "add_script":
+            # a script on its own (possibly the only content of a group being imported); content z's sibling files refer to it
+            ops.append(["add_script", "lib/" + h[1], SCRIPT[h[2]]])
         elif h[0] == "remove_tmpl":
             ops.append(["remove_tmpl", PATHS[h[1]]])
             ops.append(["remove_script", "p/s_" + h[1]])
